@@ -117,9 +117,11 @@ func c01(c *core.Ctx, r *core.Report) {
 	}
 	exitRule(c, r, "R01.exit", "Sinks")
 	// ---- R01.seenkey
+	seenEnqueueRule(c, r, "R01.seenenq", "analysis/taint")
 	seenKeyRule(c, r, "R01.seenkey", "analysis/taint", "a flow that returns to the second caller of a shared helper chain is not reported")
 	treeKeyRule(c, r, "R01.seenkey", "flows through call chains that differ only in the merged frames are lost")
 	apGrammarRule(c, r, "R01.apgrammar", "analysis/taint")
+	ensureRule(c, r, "R01.ensure", "analysis/taint", "Visitor.Visit", 8)
 	boundsRule(c, r, "R01.bound", func(fn *ssa.Function, rel string) bool { return rel == "analysis/dataflow" || rel == "analysis/taint" },
 		"the guarded summary edge is not created and the flow through it is not reported")
 	memoRule(c, r, "R01.memo", func(fn *ssa.Function, rel string) bool { return rel == "analysis/taint" }, "stale traversal state hides flows")
@@ -328,51 +330,37 @@ func c02(c *core.Ctx, r *core.Report) {
 	_ = nSites
 
 	// ---- R02.drop
-	if fd, tp := c.Decl("analysis/taint", "Visitor.addNext"); fd != nil {
+	if an := c.Func("analysis/taint", "Visitor.addNext"); an != nil {
+		// SSA, helpers inlined: every call of isValidatorCondition reachable from addNext receives the Value and the
+		// IsPositive of one of the Conditions of the edge being followed (the edgeInfo parameter of addNext)
 		r.Analysed("analysis/taint.Visitor.addNext")
-		params := map[types.Object]bool{}
-		for _, fl := range fd.Type.Params.List {
-			for _, nm := range fl.Names {
-				params[tp.TypesInfo.ObjectOf(nm)] = true
+		var edgeParam ssa.Value
+		for _, p := range an.Params {
+			if strings.HasSuffix(p.Type().String(), "dataflow.EdgeInfo") {
+				edgeParam = p
 			}
 		}
 		nCalls, good := 0, 0
-		ast.Inspect(fd.Body, func(n ast.Node) bool {
-			rs, ok := n.(*ast.RangeStmt)
+		for _, ii := range core.InlinedInstrs(c, an, c.Depth(2), func(ins ssa.Instruction) bool {
+			call, ok := ins.(*ssa.Call)
 			if !ok {
-				return true
+				return false
 			}
-			rootIsParam := params[rootIdentObj(rs.X, tp.TypesInfo)]
-			overConds := exprAny(rs.X, func(m ast.Node) bool { se, ok := m.(*ast.SelectorExpr); return ok && se.Sel.Name == "Conditions" })
-			val, _ := rs.Value.(*ast.Ident)
-			ast.Inspect(rs.Body, func(m ast.Node) bool {
-				call, ok := m.(*ast.CallExpr)
-				if !ok {
-					return true
-				}
-				if o := core.CalleeObj(call, tp.TypesInfo); o == nil || o.Name() != "isValidatorCondition" || len(call.Args) != 3 {
-					return true
-				}
-				nCalls++
-				a1, a2 := selPath(call.Args[1]), selPath(call.Args[2])
-				if rootIsParam && overConds && val != nil && len(a1) == 2 && len(a2) == 2 && a1[0] == val.Name && a2[0] == val.Name && a1[1] == "Value" && a2[1] == "IsPositive" {
-					good++
-				}
-				return true
-			})
-			return true
-		})
-		// no other use of isValidatorCondition in addNext
-		total := 0
-		ast.Inspect(fd.Body, func(n ast.Node) bool {
-			if call, ok := n.(*ast.CallExpr); ok {
-				if o := core.CalleeObj(call, tp.TypesInfo); o != nil && o.Name() == "isValidatorCondition" {
-					total++
-				}
+			sc := call.Call.StaticCallee()
+			return sc != nil && sc.Name() == "isValidatorCondition" && len(call.Call.Args) == 3
+		}) {
+			call := ii.Ins.(*ssa.Call)
+			if call.Parent().Name() == "isValidatorCondition" || call.Parent().Name() == "matchValidatorCondition" {
+				continue // the recursion of the predicate on sub-conditions
 			}
-			return true
-		})
-		r.Check(nCalls == 1 && good == 1 && total == 1, "R02.drop", "analysis/taint.Visitor.addNext|validator-stop", c.Pos(fd.Pos()),
+			nCalls++
+			p1, r1 := ii.PathAndRoot(call.Call.Args[1])
+			p2, r2 := ii.PathAndRoot(call.Call.Args[2])
+			if strings.HasSuffix(p1, "Conditions.Value") && strings.HasSuffix(p2, "Conditions.IsPositive") && r1 == edgeParam && r2 == edgeParam && edgeParam != nil {
+				good++
+			}
+		}
+		r.Check(nCalls >= 1 && good == nCalls, "R02.drop", "analysis/taint.Visitor.addNext|validator-stop", c.Pos(an.Pos()),
 			"the validator stop iterates the conditions of the edge being followed and passes each condition's value and polarity",
 			"the validator-based early return does not (only) consult the conditions of the edge being followed with their polarity: a validator elsewhere, or the negative branch of a validator, suppresses the flow")
 	} else {
@@ -480,6 +468,7 @@ func c02(c *core.Ctx, r *core.Report) {
 	r.Floor("R02.polarity", 3, "call, negation, nil check")
 
 	c02whole(c, r)
+	seenEnqueueRule(c, r, "R02.seenenq", "analysis/taint")
 	memoRule(c, r, "R02.memo", func(fn *ssa.Function, rel string) bool {
 		return rel == "analysis/taint" || rel == "analysis/dataflow" || rel == "analysis/lang" || rel == "analysis/config"
 	}, "a validator / sanitizer answer computed for one taint problem or value is returned for another, and an unvalidated flow is dropped")
